@@ -153,7 +153,8 @@ fn check(a: &[String]) -> i32 {
 
     // supplementary sanitizer stages (thorough tier, or VERIF_STAGES=1)
     let mut stage_json = vec![];
-    if tier == Tier::Thorough || std::env::var("VERIF_STAGES").is_ok_and(|v| v == "1") {
+    let stages_env = std::env::var("VERIF_STAGES").unwrap_or_default();
+    if (tier == Tier::Thorough && stages_env != "0") || stages_env == "1" {
         for spec in (prop.stages)() {
             let r = stages::run_stage(&spec, prop.id, seed, &root);
             println!("stage {} ({}) for {}: {} ({} evaluations, {:.0}s) {}", r.name, spec.phases, prop.id, r.status, r.evaluations, r.wall_s, r.detail);
